@@ -104,6 +104,7 @@ pub fn generate(seed: u64, tier: &str, sink: &mut Sink) {
                                         _ => "tunnel",
                                     };
                                     let o: Result<(), (String, String)> = (|| {
+                                        obs.resend_check(mode)?;
                                         if obs.hops.len() != 1 {
                                             return Err((format!("connections-{}", mode), format!("{} connections; final {:?}", obs.hops.len(), obs.fin)));
                                         }
